@@ -751,7 +751,7 @@ theorem Release.phase {u : Nat} {v v' : V} {L : List Ev} (hp : Phase u v.out) (h
     intro hu
     rcases hp m (List.mem_of_getElem? hm) hu with h | h <;> rw [hst] at h <;> cases h
   refine ⟨phase_set hm hp (fun h => absurd h hne), ?_⟩
-  rcases hL with rfl | ⟨c, rfl⟩
+  rcases hL with ⟨rfl, _⟩ | ⟨c, rfl⟩
   · exact NoQ.nil u
   · intro c' mid q d h
     simp only [List.mem_singleton, Ev.qPublish.injEq] at h
@@ -765,7 +765,7 @@ theorem Resend.phase {u : Nat} {v v' : V} {L : List Ev} (hp : Phase u v.out) (h 
       intro hu
       rcases hp m (List.mem_of_getElem? hm) hu with h | h <;> rw [hst] at h <;> cases h
     refine ⟨phase_set hm hp (fun h => absurd h hne), ?_⟩
-    rcases hL with rfl | ⟨c, rfl⟩
+    rcases hL with ⟨rfl, _⟩ | ⟨c, rfl⟩
     · exact NoQ.nil u
     · intro c' mid q d h
       simp only [List.mem_singleton, Ev.qPublish.injEq] at h
@@ -847,7 +847,7 @@ theorem StepR.goodL {conf cl rs : Bool} {v v' : V} {L : List Ev} (h : StepR conf
   have hrel : ∀ v v' L, Release v v' L → GoodL L := by
     intro v v' L h
     obtain ⟨idx, m, hm, hst, hq, _, hL, rfl⟩ := h
-    rcases hL with rfl | ⟨c, rfl⟩
+    rcases hL with ⟨rfl, _⟩ | ⟨c, rfl⟩
     · exact GoodL.nil
     · intro c' u mid d h
       simp only [List.mem_singleton, Ev.qPublish.injEq] at h
@@ -856,7 +856,7 @@ theorem StepR.goodL {conf cl rs : Bool} {v v' : V} {L : List Ev} (h : StepR conf
     intro v v' L h
     obtain ⟨idx, m, st, hm, hcase, rfl⟩ := h
     rcases hcase with ⟨_, hq, hL⟩ | ⟨_, _, _, rfl⟩
-    · rcases hL with rfl | ⟨c, rfl⟩
+    · rcases hL with ⟨rfl, _⟩ | ⟨c, rfl⟩
       · exact GoodL.nil
       · intro c' u mid d h
         simp only [List.mem_singleton, Ev.qPublish.injEq] at h
@@ -953,7 +953,7 @@ theorem Release.handed {H : Nat → Prop} {v v' : V} {L : List Ev} (hp : HI H v.
       · rcases hc with hc | hc <;> cases hc
       · rcases hc with hc | hc <;> cases hc
       · rw [hst] at hc; rcases hc with hc | hc <;> cases hc
-  · rcases hL with rfl | ⟨c, rfl⟩
+  · rcases hL with ⟨rfl, _⟩ | ⟨c, rfl⟩
     · exact GoodD.nil H
     · intro c' u mid q h
       simp only [List.mem_singleton, Ev.qPublish.injEq] at h
@@ -971,7 +971,7 @@ theorem Resend.handed {H : Nat → Prop} {v v' : V} {L : List Ev} (hp : HI H v.o
       · exfalso
         simp only [InPhase] at hc
         rcases hq with ⟨_, rfl⟩ | ⟨_, rfl⟩ <;> rcases hc with hc | hc <;> cases hc
-    · rcases hL with rfl | ⟨c, rfl⟩
+    · rcases hL with ⟨rfl, _⟩ | ⟨c, rfl⟩
       · exact GoodD.nil H
       · intro c' u mid q h
         simp only [List.mem_singleton, Ev.qPublish.injEq] at h
@@ -1158,23 +1158,200 @@ theorem StateOK.step {conf cl rs : Bool} {v v' : V} {L : List Ev} (hs : StateOK 
         · exact Or.inl rfl
         · exact Or.inr (Or.inr (Or.inr (Or.inr (Or.inr rfl))))
 
+/-! ### waiting states have been handed
+
+Since `_update_inflight` and the retransmission loop of `_handle_connack` stop as soon as the socket is gone,
+a message is put in `wait_for_puback` / `wait_for_pubrec` only together with handing its PUBLISH to a connection
+(provided the packet can be encoded, which `publish()` has checked). -/
+
+/-- handed before the step (`H`), or by one of the events `L` of the step -/
+def HL (H : Nat → Prop) (L : List Ev) (u : Nat) : Prop := H u ∨ ∃ c mid q d, Ev.qPublish c u mid q d ∈ L
+
+theorem HL.append {H : Nat → Prop} {A : List Ev} {u : Nat} (h : HL H A u) (L : List Ev) : HL H (A ++ L) u := by
+  rcases h with h | ⟨c, mid, q, d, h⟩
+  · exact Or.inl h
+  · exact Or.inr ⟨c, mid, q, d, List.mem_append_left _ h⟩
+
+def Wt (H : Nat → Prop) (l : List OutMsg) : Prop :=
+  ∀ m ∈ l, (m.state = .waitPuback ∨ m.state = .waitPubrec) → H m.info
+
+theorem Wt.mono {H H' : Nat → Prop} {l : List OutMsg} (h : Wt H l) (hm : ∀ u, H u → H' u) : Wt H' l :=
+  fun m hmem hs => hm _ (h m hmem hs)
+
+def WJ (H : Nat → Prop) (p5 : Prop) (l : List OutMsg) (A : List Ev) : Prop :=
+  (∀ m ∈ l, Enc p5 m) ∧ Wt (HL H A) l
+
+theorem Star.liftAcc {R : V → V → List Ev → Prop} (J : V → List Ev → Prop)
+    (h : ∀ v v' A L, J v A → R v v' L → J v' (A ++ L)) {v v' : V} {L : List Ev} (hs : Star R v v' L) :
+    ∀ A, J v A → J v' (A ++ L) := by
+  induction hs with
+  | refl => intro A h0; simpa using h0
+  | step hr _ ih => intro A h0; rw [← List.append_assoc]; exact ih _ (h _ _ _ _ h0 hr)
+
+theorem wj_set {H : Nat → Prop} {p5 : Prop} {A : List Ev} {l : List OutMsg} {idx : Nat} {m m' : OutMsg}
+    (L : List Ev) (hm : l[idx]? = some m) (hj : WJ H p5 l A) (henc : Enc p5 m → Enc p5 m')
+    (hw : (m'.state = .waitPuback ∨ m'.state = .waitPubrec) → HL H (A ++ L) m'.info) :
+    WJ H p5 (l.set idx m') (A ++ L) := by
+  obtain ⟨a, b, hl, hset⟩ := split_at l idx m hm
+  have hmem : m ∈ l := List.mem_of_getElem? hm
+  refine ⟨?_, ?_⟩
+  · intro x hx
+    rw [hset] at hx
+    simp only [List.mem_append, List.mem_cons] at hx
+    rcases hx with hx | rfl | hx
+    · exact hj.1 x (by rw [hl]; simp [hx])
+    · exact henc (hj.1 m hmem)
+    · exact hj.1 x (by rw [hl]; simp [hx])
+  · intro x hx hs
+    rw [hset] at hx
+    simp only [List.mem_append, List.mem_cons] at hx
+    rcases hx with hx | rfl | hx
+    · exact (hj.2 x (by rw [hl]; simp [hx]) hs).append L
+    · exact hw hs
+    · exact (hj.2 x (by rw [hl]; simp [hx]) hs).append L
+
+theorem Release.wj {H : Nat → Prop} {v v' : V} {A L : List Ev} (hj : v.mok ∧ WJ H v.p5 v.out A) (h : Release v v' L) :
+    v'.mok ∧ WJ H v'.p5 v'.out (A ++ L) := by
+  obtain ⟨idx, m, hm, hst, _, _, hL, rfl⟩ := h
+  refine ⟨hj.1, wj_set L hm hj.2 (fun h => h) (fun _ => ?_)⟩
+  rcases hL with ⟨_, hne⟩ | ⟨c, rfl⟩
+  · exact absurd (hj.2.1 m (List.mem_of_getElem? hm)) hne
+  · exact Or.inr ⟨c, m.mid, m.qos, m.dup, by simp⟩
+
+theorem Resend.wj {H : Nat → Prop} {v v' : V} {A L : List Ev} (hj : v.mok ∧ WJ H v.p5 v.out A) (h : Resend v v' L) :
+    v'.mok ∧ WJ H v'.p5 v'.out (A ++ L) := by
+  obtain ⟨idx, m, st, hm, hcase, rfl⟩ := h
+  refine ⟨hj.1, wj_set L hm hj.2 (fun h => h) (fun hs => ?_)⟩
+  rcases hcase with ⟨_, _, hL⟩ | ⟨_, _, h3, _⟩
+  · rcases hL with ⟨_, hne⟩ | ⟨c, rfl⟩
+    · exact absurd (hj.2.1 m (List.mem_of_getElem? hm)) hne
+    · exact Or.inr ⟨c, m.mid, m.qos, m.dup, by simp⟩
+  · exfalso; simp only [h3] at hs; rcases hs with hs | hs <;> cases hs
+
+theorem reset_enc (cl : Bool) (p5 : Prop) (m : OutMsg) (h : Enc p5 m) : Enc p5 (resetOutMsg cl m) := by
+  have e : (resetOutMsg cl m).mid = m.mid ∧ (resetOutMsg cl m).topic = m.topic ∧ (resetOutMsg cl m).payload = m.payload ∧
+      (resetOutMsg cl m).qos = m.qos ∧ (resetOutMsg cl m).retain = m.retain := by
+    unfold resetOutMsg
+    repeat' split
+    all_goals exact ⟨rfl, rfl, rfl, rfl, rfl⟩
+  intro proto dup hp
+  rw [e.1, e.2.1, e.2.2.1, e.2.2.2.1, e.2.2.2.2]
+  exact h proto dup hp
+
+theorem reset_wait (cl : Bool) (m : OutMsg)
+    (h : (resetOutMsg cl m).state = .waitPuback ∨ (resetOutMsg cl m).state = .waitPubrec) :
+    m.state = .waitPuback ∨ m.state = .waitPubrec := by
+  unfold resetOutMsg at h
+  repeat' split at h
+  all_goals first | (rcases h with h | h <;> cases h) | exact h
+
+theorem StepR.wj {conf cl rs : Bool} {H : Nat → Prop} {v v' : V} {L : List Ev} (hconf : conf = true)
+    (hmok : v.mok) (hj : WJ H v.p5 v.out []) (h : StepR conf cl rs v v' L) :
+    v'.mok ∧ WJ H v'.p5 v'.out L := by
+  subst hconf
+  cases h with
+  | frame h => rw [h.1, h.2]; exact ⟨hmok, hj⟩
+  | ack mid h =>
+    obtain ⟨m, v1, hfind, rfl, hconf, hstar, _⟩ := h
+    have hj1 : WJ H v.p5 (v.out.filter (fun x => decide (x.mid ≠ mid))) [] :=
+      ⟨fun x hx => hj.1 x (List.mem_filter.1 hx).1, fun x hx => hj.2 x (List.mem_filter.1 hx).1⟩
+    have := Star.liftAcc (fun w A => w.mok ∧ WJ H w.p5 w.out A) (fun _ _ _ _ hw hr => Release.wj hw hr) hstar []
+      ⟨hmok, hj1⟩
+    simpa using this
+  | pubrec mid h =>
+    obtain ⟨rfl, rfl, hconf⟩ := h
+    refine ⟨hmok, ?_, ?_⟩
+    · intro x hx
+      simp only [List.mem_map] at hx
+      obtain ⟨y, hy, rfl⟩ := hx
+      split
+      · exact hj.1 y hy
+      · exact hj.1 y hy
+    · intro x hx hs
+      simp only [List.mem_map] at hx
+      obtain ⟨y, hy, rfl⟩ := hx
+      by_cases hm : y.mid = mid
+      · simp only [if_pos hm] at hs
+        rcases hs with hs | hs <;> cases hs
+      · simp only [if_neg hm] at hs ⊢
+        exact hj.2 y hy hs
+  | reset h =>
+    obtain ⟨rfl, rfl⟩ := h
+    refine ⟨hmok, ?_, ?_⟩
+    · intro x hx
+      simp only [List.mem_map] at hx
+      obtain ⟨y, hy, rfl⟩ := hx
+      exact reset_enc cl _ y (hj.1 y hy)
+    · intro x hx hs
+      simp only [List.mem_map] at hx
+      obtain ⟨y, hy, rfl⟩ := hx
+      rw [reset_info]
+      exact hj.2 y hy (reset_wait cl y hs)
+  | resend _ h =>
+    have := Star.liftAcc (fun w A => w.mok ∧ WJ H w.p5 w.out A) (fun _ _ _ _ hw hr => Resend.wj hw hr) h []
+      ⟨hmok, hj⟩
+    simpa using this
+  | add h hx =>
+    obtain ⟨hp5, hmk, hx⟩ := hx
+    obtain ⟨_, _, h⟩ := h
+    rw [hp5, hmk]
+    refine ⟨hmok, ?_⟩
+    rcases h with ⟨ho, _, _⟩ | ⟨m, _, _, _, _, ho, _, _⟩
+    · rw [ho]
+      exact ⟨hj.1, fun x hx hs => (hj.2 x hx hs).append L⟩
+    · obtain ⟨henc, hl⟩ := hx hmok m ho
+      rw [ho]
+      refine ⟨?_, ?_⟩
+      · intro x hx
+        simp only [List.mem_append, List.mem_singleton] at hx
+        rcases hx with hx | rfl
+        · exact hj.1 x hx
+        · exact henc
+      · intro x hx hs
+        simp only [List.mem_append, List.mem_singleton] at hx
+        rcases hx with hx | rfl
+        · exact (hj.2 x hx hs).append L
+        · obtain ⟨c, rfl⟩ := hl hs
+          exact Or.inr ⟨c, x.mid, x.qos, false, by simp⟩
+
 def handedIn (log : List Ev) (u : Nat) : Prop := ∃ c mid q d, Ev.qPublish c u mid q d ∈ log
 
 def LogOrd (log : List Ev) : Prop :=
   ∀ (i c u mid q : Nat), log[i]? = some (Ev.qPublish c u mid q true) →
     ∃ j, j < i ∧ ∃ c' mid' q' d', log[j]? = some (Ev.qPublish c' u mid' q' d')
 
-/-- wait states have been handed (the hypothesis that excludes the NO_CONN defect) -/
+/-- wait states have been handed -/
 def WaitHanded (s : S) : Prop :=
   ∀ m ∈ s.out, (m.state = .waitPuback ∨ m.state = .waitPubrec) → handedIn s.log m.info
 
 def DupK (s : S) : Prop := StateOK s.out ∧ HI (handedIn s.log) s.out ∧ LogOrd s.log
+
+/-- every stored message can be encoded, `_last_mid` is in range, wait states have been handed -/
+def WaitK (s : S) : Prop := (view s).mok ∧ (∀ m ∈ s.out, Enc (view s).p5 m) ∧ WaitHanded s
 
 theorem DupK.init (cfg : Cfg) (proto t : Nat) : DupK (S.init cfg proto t) := by
   refine ⟨?_, ?_, ?_⟩
   · intro m hm; simp [S.init] at hm
   · intro m hm; simp [S.init] at hm
   · intro i c u mid q h; simp [S.init] at h
+
+theorem WaitK.init (cfg : Cfg) (proto t : Nat) : WaitK (S.init cfg proto t) := by
+  refine ⟨?_, ?_, ?_⟩
+  · simp [view, S.init, Gen.midInit]
+  · intro m hm; simp [S.init] at hm
+  · intro m hm; simp [S.init] at hm
+
+theorem WaitK.step (s : S) (op : Op) (k : WaitK s) (hc : opConforming s op = true) : WaitK (s.step op) := by
+  obtain ⟨k1, k2, k3⟩ := k
+  have tr := step_tr s op
+  have hj : WJ (handedIn s.log) (view s).p5 (view s).out [] :=
+    ⟨k2, fun m hm hs => Or.inl (k3 m hm hs)⟩
+  obtain ⟨h1, h2, h3⟩ := StepR.wj hc k1 hj tr.2
+  refine ⟨h1, h2, ?_⟩
+  intro m hm hs
+  rcases h3 m hm hs with ⟨c, mid, q, d, h⟩ | ⟨c, mid, q, d, h⟩
+  · exact ⟨c, mid, q, d, by rw [tr.1]; exact List.mem_append_left _ h⟩
+  · exact ⟨c, mid, q, d, by rw [tr.1]; exact List.mem_append_right _ (List.mem_filter.1 h).1⟩
 
 theorem DupK.step (s : S) (op : Op) (k : DupK s) (hc : opConforming s op = true) (hw : WaitHanded s) :
     DupK (s.step op) := by
@@ -1209,22 +1386,12 @@ theorem DupK.step (s : S) (op : Op) (k : DupK s) (hc : opConforming s op = true)
     refine ⟨j, by omega, c', mid', q', d', ?_⟩
     rw [List.getElem?_append_left hjlt, List.getElem?_eq_getElem hjlt, hj]
 
-theorem dupK_run (cfg : Cfg) (proto : Nat) :
-    ∀ (post pre : List Op), confRun (runFrom cfg proto pre) post = true →
-      (∀ (p q : List Op), pre ++ post = p ++ q → WaitHanded (runFrom cfg proto p)) →
-      DupK (runFrom cfg proto pre) → DupK (runFrom cfg proto (pre ++ post)) := by
-  intro post
-  induction post with
-  | nil => intro pre _ _ k; simpa using k
-  | cons op post ih =>
-    intro pre hc hw k
-    simp only [confRun, Bool.and_eq_true] at hc
-    have e : pre ++ op :: post = (pre ++ [op]) ++ post := by simp
-    have e2 : runFrom cfg proto (pre ++ [op]) = (runFrom cfg proto pre).step op := by
-      rw [runFrom_append]; rfl
-    rw [e]
-    refine ih (pre ++ [op]) (by rw [e2]; exact hc.2) (by rw [← e]; exact hw) ?_
-    rw [e2]
-    exact k.step _ op hc.1 (hw pre (op :: post) rfl)
+/-- with a conforming broker: a stored message in a waiting state has been handed to a connection, DUP is set
+only on handed messages, and a PUBLISH with DUP=1 is preceded in the log by a PUBLISH of the same instance -/
+theorem dupK_run (cfg : Cfg) (proto : Nat) (ops : List Op) (hconf : confRun (S.init cfg proto t0) ops = true) :
+    DupK (runFrom cfg proto ops) ∧ WaitK (runFrom cfg proto ops) :=
+  conf_run_inv (fun s => DupK s ∧ WaitK s)
+    (fun s op h hc => ⟨h.1.step s op hc h.2.2.2, h.2.step s op hc⟩) ops _
+    ⟨DupK.init cfg proto t0, WaitK.init cfg proto t0⟩ hconf
 
 end Paho.FlowLemmas
